@@ -33,6 +33,9 @@ const replayBytes = 160 // leading bytes of each byte sequence requested from th
 // describeInput registers the model terms needed to rebuild an input value.
 func (fx *FnExec) describeInput(st *State, name string, v Val, t types.Type, depth int) {
 	c := fx.c
+	saved := fx.noAssume
+	fx.noAssume = true
+	defer func() { fx.noAssume = saved }()
 	add := func(n string, tm *Term) { fx.inputs = append(fx.inputs, namedTerm{n, tm}) }
 	defer func() {
 		if e := recover(); e != nil {
